@@ -443,6 +443,36 @@ def gen_multi_random(rng):
     return _multi_case(lay, pos, tag="multi_random")
 
 
+def gen_n50_boundary(rng):
+    """NG50 threshold: --chr-lengths puts half the target length exactly at / just below / just above a prefix sum of
+    the piece lengths in descending order (n50 returns the first length whose running total reaches 0.5 * target)"""
+    case = gen_multi_random(rng)
+    sets = {}
+    for line in case["vcf"].split("\n"):
+        if line.startswith("chr1\t"):
+            f = line.split("\t")
+            ps = f[9].split(":")[1]
+            if "|" in f[9] and ps != ".":
+                sets.setdefault(ps, []).append(int(f[1]))
+    pieces = sorted(o_pieces(list(sets.values())), reverse=True)
+    if pieces:
+        k = rng.randint(1, len(pieces))
+        target = max(1, 2 * sum(pieces[:k]) + rng.choice([-1, 0, 0, 1]))
+    else:
+        target = 1000
+    case["chr_lengths"] = {"chr1": target}
+    case["tags"] = dict(case["tags"], n50_boundary=True)
+    return case
+
+
+def empty_case(with_contigs):
+    hdr = ["##fileformat=VCFv4.2"] + (["##contig=<ID=chrA,length=1000>", "##contig=<ID=chrB,length=1000>"] if with_contigs else [])
+    hdr += ['##FORMAT=<ID=GT,Number=1,Type=String,Description="Genotype">',
+            "#CHROM\tPOS\tID\tREF\tALT\tQUAL\tFILTER\tINFO\tFORMAT\tS1"]
+    return {"vcf": "\n".join(hdr) + "\n", "sample": None, "only_snvs": False, "chromosomes": None, "indexed": False,
+            "tags": {"empty_file": True, "ploidy": 2, "miss": False}}
+
+
 # ------------------------------------------------------------------------------------------------ abstraction
 def unpack_chromosomes(chromosomes):
     out = []
